@@ -110,6 +110,36 @@ def extra(chk, thorough):
     # or by its own shorter timeout): its clean-up must remove ITS waiter - the earlier request still gets its response
     bad3 = None
     n3 = 0
+    # an application callback registered for the same response command BETWEEN two requests: one response still ends
+    # exactly one request (the oldest waiting), the next response the next one
+    for kind in ("nb1", "b1", "nb2"):
+        for acks_before in (0, 3):
+            evs = [("issue", 1, kind)] + [("ack", -1)] * acks_before + [("listen", kind), ("issue", 2, kind)] + [("ack", -1)] * 4
+            evs += [("rsp", kind)]
+            r = A.Runner()
+            try:
+                out = []
+                for e in evs:
+                    if e == ("ack", -1):
+                        e = ("ack", r.proto._pack_seq)
+                    out.append(r.step(e))
+                after_first = [x for st in out for x in st if x.startswith("E:")]
+                for e in [("ack", -1)] * 3 + [("rsp", kind), ("tick", 6000)]:
+                    if e == ("ack", -1):
+                        e = ("ack", r.proto._pack_seq)
+                    out.append(r.step(e))
+                nl = r.listeners()
+                ncb = r.callbacks
+            finally:
+                r.close()
+            n2 += 1
+            chk.evaluations += 1
+            flat = [x for st in out for x in st if x.startswith("E:")]
+            ok = (len(after_first) == 1 and after_first[0].startswith("E:1:R:") and any(x.startswith("E:2:R:") for x in flat)
+                  and nl == 0 and ncb == 2)
+            if not ok:
+                bad2 = bad2 or (kind, "callback-between-requests", [], ["after first response: %s" % after_first, "all: %s" % flat,
+                                                                    "callback invoked %d times (2 responses)" % ncb], nl)
     later_first = [
         ("nb1", "nb1", [("issue", 1, "nb1"), ("issue", 2, "nb1"), ("ack", -1), ("ack", -1), ("cancel", 2), ("rsp", "nb1"), ("tick", 6000)]),
         ("nb1", "nb1", [("issue", 1, "nb1"), ("issue", 2, "nb1"), ("cancel", 2), ("ack", -1), ("ack", -1), ("rsp", "nb1"), ("tick", 6000)]),
